@@ -14,6 +14,7 @@ import (
 	"github.com/anishathalye/porcupine"
 	"github.com/rs/zerolog"
 	"github.com/rs/zerolog/diode"
+	zlog "github.com/rs/zerolog/log"
 	"github.com/rs/zerolog/diode/verifh/evid"
 	"github.com/rs/zerolog/diode/verifh/rng"
 )
@@ -35,7 +36,10 @@ func randomCfg(prop string, f *evid.Flags, idx int) (*dCfg, *rng.R) {
 	}
 	c.P = 1 + r.Intn(maxP)
 	c.W = 1 + r.Intn(6)
-	c.Size = []int{1, 2, 3, 4, 8}[r.Intn(5)]
+	c.Size = []int{1, 2, 3, 4, 8, 1, 2, 4, 16, 100}[r.Intn(10)]
+	if c.Size >= 16 && r.Bool() {
+		c.W = 10 + r.Intn(40) // enough writes to fill and lap a larger ring
+	}
 	if r.Chance(1, 3) {
 		c.Poll = time.Duration(20+r.Intn(80)) * time.Microsecond
 	}
@@ -51,12 +55,20 @@ func randomCfg(prop string, f *evid.Flags, idx int) (*dCfg, *rng.R) {
 	switch prop {
 	case "C10":
 		c.Block = r.Chance(1, 5)
+		c.NilAlerter = r.Chance(1, 8)
+		c.LateWrites = r.Chance(1, 6)
 	case "C11":
 		c.CloseEarly = r.Chance(1, 2)
 		c.Paced = r.Chance(1, 5)
 	case "C12":
-		c.Paced = r.Chance(1, 10)
+		c.Paced = r.Chance(1, 6)
+		c.LateWrites = r.Chance(1, 10)
+		c.CloseTwice = []int{0, 0, 0, 0, 1, 1, 2, 2}[r.Intn(8)]
 	}
+	if !c.NilAlerter {
+		c.ReAlerter = r.Chance(1, 6)
+	}
+	c.Procs = []int{0, 0, 0, 0, 1, 2}[r.Intn(6)]
 	if isRace() && prop != "C12" && idx%2 == 1 {
 		c.Hookless = true
 		c.NoisePlan = nil
@@ -77,6 +89,17 @@ func sweepCfg(pt int, k int, poll bool, size int) *dCfg {
 		c.Poll = 50 * time.Microsecond
 	}
 	c.Pauses = []*dPause{{Pt: pt, K: k, Timeout: 3 * time.Millisecond, OtherRole: true, armed: make(chan struct{}), release: make(chan struct{})}}
+	return c
+}
+
+// holdCfg: the k-th arrival of the consumer at point pt is held until every producer call has returned, so that
+// whole laps pass while the consumer sits there (closeEarly: Close is then called at once).
+func holdCfg(pt int, k int, poll bool, size int, closeEarly bool) *dCfg {
+	c := &dCfg{Name: fmt.Sprintf("hold-across-laps[%s#%d]", dPoints[pt], k), P: 2, W: 2*size + 1, Size: size, CloseEarly: closeEarly}
+	if poll {
+		c.Poll = 50 * time.Microsecond
+	}
+	c.Pauses = []*dPause{{Pt: pt, K: k, Timeout: 300 * time.Millisecond, UntilJoin: true, armed: make(chan struct{}), release: make(chan struct{})}}
 	return c
 }
 
@@ -162,7 +185,7 @@ func directedScenarios() []scenario {
 				waitDelivered(r, 1, 500*time.Millisecond) // slot 0 emptied by the consumer
 				holdB.Release(r)
 				<-done
-				r.awaitQuiescence(2 * time.Second)
+				r.settle(2 * time.Second)
 			}
 			return c
 		}, []bool{false, true}},
@@ -190,7 +213,7 @@ func directedScenarios() []scenario {
 				holdA.Release(r)
 				<-done
 				holdC.Release(r)
-				r.awaitQuiescence(2 * time.Second)
+				r.settle(2 * time.Second)
 			}
 			return c
 		}, []bool{false, true}},
@@ -203,13 +226,13 @@ func directedScenarios() []scenario {
 					return
 				}
 				r.write(0, 0)
-				r.awaitQuiescence(2 * time.Second)
+				r.settle(2 * time.Second)
 			}
 			return c
 		}, []bool{false}},
 		{"cancel between the consumer's done check and its Wait", "C12", func(poll bool) *dCfg {
 			c := &dCfg{Name: "cancel-before-wait", P: 1, W: 1, Size: 4}
-			hold := newPause("waiter.next.beforewait", 1, 50*time.Millisecond, false, "waiter.cancel.broadcast")
+			hold := newPause("waiter.next.beforewait", 1, 50*time.Millisecond, false, "diode.close.cancelled")
 			c.Pauses = []*dPause{hold}
 			c.Script = func(r *dRun) {
 				if !waitArmed(hold, time.Second) {
@@ -219,6 +242,41 @@ func directedScenarios() []scenario {
 			}
 			return c
 		}, []bool{false}},
+		{"Write and Close between the consumer's cancellation check and its TryNext", "C11 C12", func(poll bool) *dCfg {
+			// Next reads the cancellation state, then calls TryNext (hook point m2o.next.enter is its first
+			// statement): a message written and a Close issued in between must still be drained
+			c := &dCfg{Name: "write+close-between-done-read-and-trynext", P: 1, W: 1, Size: 4}
+			if poll {
+				c.Poll = 200 * time.Microsecond
+			}
+			hold := newPause("m2o.next.enter", 1, long, false, "diode.close.cancelled")
+			c.Pauses = []*dPause{hold}
+			c.Script = func(r *dRun) {
+				if !waitArmed(hold, time.Second) {
+					return
+				}
+				r.write(0, 0)
+				r.doClose(3 * time.Second)
+			}
+			return c
+		}, []bool{false, true}},
+		{"Close of a diode that was never written to", "C12", func(poll bool) *dCfg {
+			c := &dCfg{Name: "close-never-written", P: 1, W: 0, Size: 4, CloseTwice: 1}
+			if poll {
+				c.Poll = 2 * time.Millisecond
+			}
+			c.Script = func(r *dRun) {
+				time.Sleep(300 * time.Microsecond)
+				r.doClose(3 * time.Second)
+			}
+			return c
+		}, []bool{false, true}},
+		{"two producers one lap apart race for the same slot (the earlier position wins the CAS)", "C10 C11 C12", func(poll bool) *dCfg {
+			return casRaceCfg(poll, true)
+		}, []bool{false, true}},
+		{"two producers one lap apart race for the same slot (the later position wins the CAS)", "C10 C11 C12", func(poll bool) *dCfg {
+			return casRaceCfg(poll, false)
+		}, []bool{false, true}},
 		{"Close while the poller sleeps", "C12", func(poll bool) *dCfg {
 			c := &dCfg{Name: "close-during-poll-sleep", P: 1, W: 1, Size: 4, Poll: 5 * time.Millisecond}
 			c.Script = func(r *dRun) {
@@ -238,6 +296,56 @@ func directedScenarios() []scenario {
 	}
 }
 
+// casRaceCfg: ring of one slot, the consumer held before its first TryNext; producer A (position 0) and producer
+// B (position 1) have both loaded the empty slot; they are released in the given order. The loser of the CAS
+// must retry the same position (earlier wins: B overwrites A, A is reported missed) or move on to a new one
+// (later wins: A finds a newer occupant).
+func casRaceCfg(poll bool, earlierFirst bool) *dCfg {
+	long := 300 * time.Millisecond
+	c := &dCfg{Name: fmt.Sprintf("cas-race-one-lap-apart(earlierFirst=%v)", earlierFirst), P: 2, W: 1, Size: 1}
+	if poll {
+		c.Poll = 100 * time.Microsecond
+	}
+	holdC := newPause("m2o.next.enter", 1, long, false)
+	holdA := newPause("m2o.set.loaded", 1, long, false)
+	holdB := newPause("m2o.set.loaded", 2, long, false)
+	c.Pauses = []*dPause{holdC, holdA, holdB}
+	c.Script = func(r *dRun) {
+		if !waitArmed(holdC, time.Second) {
+			return
+		}
+		da, db := make(chan struct{}), make(chan struct{})
+		go func() { r.prodG.Store(goid(), 0); r.write(0, 0); close(da) }()
+		if !waitArmed(holdA, time.Second) {
+			holdC.Release(r)
+			<-da
+			return
+		}
+		go func() { r.prodG.Store(goid(), 1); r.write(1, 0); close(db) }()
+		if !waitArmed(holdB, time.Second) {
+			holdA.Release(r)
+			holdC.Release(r)
+			<-da
+			<-db
+			return
+		}
+		if earlierFirst {
+			holdA.Release(r)
+			<-da
+			holdB.Release(r)
+			<-db
+		} else {
+			holdB.Release(r)
+			<-db
+			holdA.Release(r)
+			<-da
+		}
+		holdC.Release(r)
+		r.settle(2 * time.Second)
+	}
+	return c
+}
+
 // ---- judges -------------------------------------------------------------------------------------------------
 
 type lfIn struct {
@@ -254,6 +362,12 @@ func judgeC10(out *evid.Out, r *dRun) {
 	r.mu.Unlock()
 	if spin != "" {
 		viol("producer-spins", "Write does not return while the wrapped writer is blocked or slow: "+spin)
+	}
+	r.wmu.Lock()
+	wp := r.WritePanic
+	r.wmu.Unlock()
+	if wp != "" {
+		viol("write-panics", "Write does not return: "+wp)
 	}
 	if r.ProducersHung == "parked" {
 		viol("producer-blocked", "a producer's Write cannot return while the wrapped writer is blocked (producer goroutine parked): "+firstLines(r.StallDump, 6))
@@ -406,17 +520,39 @@ func judgeC11(out *evid.Out, r *dRun) {
 		out.Inconc("run did not complete (" + r.CloseHung + r.ProducersHung + "); accounting not judged " + r.cfg.String())
 		return
 	}
+	if r.cfg.NilAlerter {
+		return // losses are unobservable by design
+	}
 	wr, ret, del, al := r.counts()
 	if ret != wr {
 		out.Inconc("not every Write returned; accounting not judged " + r.cfg.String())
 		return
 	}
+	closeRet := atomic.LoadInt64(&r.closeRet)
 	// messages whose Write returned before Close was called
 	before := 0
 	undeliveredBefore := 0
 	deliveredSet := map[string]bool{}
 	for _, d := range r.D() {
+		if d.AfterWClose {
+			viol("delivery-after-wrapped-close", fmt.Sprintf("%s was handed to the wrapped writer after Close had already closed that writer", d.ID))
+			continue
+		}
+		if closeRet != 0 && d.Entry > closeRet {
+			continue // not "delivered before Close returned"
+		}
 		deliveredSet[d.ID] = true
+	}
+	if lost := lostPositions(r); len(lost) > 0 && !r.cfg.Hookless && r.cfg.CloseTwice != 2 {
+		allBefore := true
+		for _, w := range r.W() {
+			if !(w.Ret < r.closeCalled) {
+				allBefore = false
+			}
+		}
+		if allBefore {
+			viol("silent-loss-position:"+lossClass(r), fmt.Sprintf("ring position(s) %v were stored by a Write that returned before Close was called, but the consumer neither took them nor skipped them with an alert (the totals may still add up: alerts for abandoned positions hide the loss)", lost))
+		}
 	}
 	for _, w := range r.W() {
 		if w.Ret < r.closeCalled {
@@ -442,6 +578,49 @@ func judgeC11(out *evid.Out, r *dRun) {
 	if r.cfg.Hookless {
 		out.Count("hookless_runs", 1)
 	}
+}
+
+// lostPositions replays the hook trace: a stored position must be taken by the consumer or lie inside a
+// range [readIndex, seq) the consumer skipped with an alert.
+func lostPositions(r *dRun) []uint64 {
+	stored := map[uint64]bool{}
+	taken := map[uint64]bool{}
+	type rg struct{ a, b uint64 }
+	var ranges []rg
+	var ri uint64
+	for _, e := range r.trace {
+		switch dPoints[e.Pt] {
+		case "m2o.set.stored":
+			stored[e.Arg] = true
+		case "m2o.next.enter":
+			ri = e.Arg
+		case "m2o.next.swapped":
+			if e.Arg >= ri {
+				taken[e.Arg] = true
+				if e.Arg > ri {
+					ranges = append(ranges, rg{ri, e.Arg})
+				}
+			}
+		}
+	}
+	var lost []uint64
+	for s := range stored {
+		if taken[s] {
+			continue
+		}
+		ok := false
+		for _, g := range ranges {
+			if s >= g.a && s < g.b {
+				ok = true
+				break
+			}
+		}
+		if !ok {
+			lost = append(lost, s)
+		}
+	}
+	sort.Slice(lost, func(i, j int) bool { return lost[i] < lost[j] })
+	return lost
 }
 
 func judgeC12(out *evid.Out, r *dRun) {
@@ -475,6 +654,9 @@ func judgeC12(out *evid.Out, r *dRun) {
 		}
 		_ = lastC
 		sig := fmt.Sprintf("stall:%s:last=%s:recovered-by-close=%v", r.StallState, lastBefore, recovered)
+		if r.MidRunStall {
+			sig = fmt.Sprintf("stall-mid-run:%s:last=%s", r.StallState, lastBefore)
+		}
 		if r.cfg.Poll == 0 && r.StallState == "parked" && lastBefore == "waiter.next.beforewait" && recovered && strings.Contains(r.StallDump, "sync.Cond.Wait") {
 			sig = "waiter:lost-wakeup:set-broadcast-before-wait"
 		} else {
@@ -521,6 +703,26 @@ func diodeCheck(prop string, args []string) int {
 			winTotals[k] += v
 		}
 		out.Case(h, nontrivial || len(ws) > 0)
+		for _, k := range []string{"cas_lost", "collision_with_newer_bucket", "lap_alert", "position_retried"} {
+			if ws[k] > 0 {
+				out.Count("runs_with_window_"+k, 1)
+			}
+		}
+		if r.cfg.LateWrites {
+			out.Count("runs_with_writes_during_and_after_close", 1)
+		}
+		if r.cfg.ReAlerter && atomic.LoadInt64(&r.alertCalls) > 0 {
+			out.Count("runs_where_the_alerter_wrote_to_the_diode", 1)
+		}
+		if r.cfg.NilAlerter && ws["lap_alert"] > 0 {
+			out.Count("runs_lapping_with_nil_alerter", 1)
+		}
+		if r.cfg.CloseTwice > 0 {
+			out.Count("runs_closing_twice", 1)
+		}
+		if atomic.LoadInt32(&r.wrappedCloses) > 0 {
+			out.Count("runs_where_wrapped_close_was_called", 1)
+		}
 		out.Count("hook_events", int64(len(r.trace)))
 		out.Count("writes", int64(len(r.W())))
 		out.Count("deliveries", int64(len(r.D())))
@@ -532,6 +734,10 @@ func diodeCheck(prop string, args []string) int {
 	}
 	for idx := 0; idx < n; idx++ {
 		if !f.Mine(idx) {
+			continue
+		}
+		if diodeTainted {
+			out.Count("runs_skipped_after_a_hang_left_goroutines_behind", 1)
 			continue
 		}
 		cfg, rr := randomCfg(prop, f, idx)
@@ -558,7 +764,7 @@ func diodeCheck(prop string, args []string) int {
 					for _, poll := range []bool{false, true} {
 						for _, size := range []int{1, 2} {
 							pi++
-							if !f.Mine(pi) {
+							if !f.Mine(pi) || diodeTainted {
 								continue
 							}
 							cfg := sweepCfg(p1, 1+k%2, poll, size)
@@ -589,13 +795,34 @@ func diodeCheck(prop string, args []string) int {
 				for k := 1; k <= 3; k++ {
 					for _, poll := range []bool{false, true} {
 						for _, size := range []int{1, 2, 4} {
-							cfg := sweepCfg(pt, k, poll, size)
-							r := runDiode(cfg, rng.New(f.Seed, uint64(pt), uint64(k)))
-							judge(out, r)
-							account(r, true)
-							out.Count("sweep_runs", 1)
-							if cfg.Pauses[0].entered {
-								out.Count("sweep_pauses_entered", 1)
+							for variant := 0; variant < 4; variant++ {
+								// 0: pause until another role steps, Close at quiescence; 1: same, Close right after the
+								// producers joined; 2/3: consumer points held until every producer returned (whole laps
+								// pass), without / with an immediate Close
+								if diodeTainted {
+									continue
+								}
+								var cfg *dCfg
+								switch variant {
+								case 0, 1:
+									cfg = sweepCfg(pt, k, poll, size)
+									cfg.CloseEarly = variant == 1
+								default:
+									if dPointRole[pt] != roleConsumer || rep > 0 {
+										continue
+									}
+									cfg = holdCfg(pt, k, poll, size, variant == 3)
+								}
+								r := runDiode(cfg, rng.New(f.Seed, uint64(pt), uint64(k)))
+								judge(out, r)
+								account(r, true)
+								out.Count("sweep_runs", 1)
+								if cfg.Pauses[0].entered {
+									out.Count("sweep_pauses_entered", 1)
+									if variant >= 2 {
+										out.Count("consumer_points_held_across_laps", 1)
+									}
+								}
 							}
 						}
 					}
@@ -612,7 +839,7 @@ func diodeCheck(prop string, args []string) int {
 				continue
 			}
 			for _, poll := range sc.modes {
-				for rep := 0; rep < reps; rep++ {
+				for rep := 0; rep < reps && !diodeTainted; rep++ {
 					cfg := sc.mk(poll)
 					r := runDiode(cfg, rng.New(f.Seed, 7))
 					judge(out, r)
@@ -650,11 +877,18 @@ func c11Fatal(out *evid.Out) {
 	if err != nil {
 		return
 	}
+	os.MkdirAll("/verif/build/out", 0o755)
+	ci := 0
 	for _, wrap := range []string{"plain", "filtered", "multi", "sync", "adapter", "multi-after-levelwriter", "multi-after-plainwriter", "multi-before-others", "sync-multi", "filtered-in-multi", "with-level-output"} {
 		for _, n := range []int{0, 1, 5, 31} {
+			ci++
+			// the wrapping x count grid runs in waiter mode with Msg; poller mode, the other finalizers and
+			// concurrent loggers rotate over it
+			poll := []int{0, 0, 150, 2000}[ci%4]
+			fin := []string{"Msg", "Msgf", "Send", "MsgFunc", "pkg-log"}[ci%5]
+			conc := ci%3 == 0
 			path := fmt.Sprintf("/verif/build/out/c11fatal.%d.%s.%d", os.Getpid(), wrap, n)
-			os.MkdirAll("/verif/build/out", 0o755)
-			cmd := exec.Command(self, "c11-fatal-child", wrap, fmt.Sprint(n), path)
+			cmd := exec.Command(self, "c11-fatal-child", wrap, fmt.Sprint(n), path, fmt.Sprint(poll), fin, fmt.Sprint(conc))
 			err := cmd.Run()
 			code := 0
 			if ee, ok := err.(*exec.ExitError); ok {
@@ -662,6 +896,7 @@ func c11Fatal(out *evid.Out) {
 			}
 			lines := 0
 			fatal := false
+			seen := map[int]bool{}
 			if fh, err := os.Open(path); err == nil {
 				sc := bufio.NewScanner(fh)
 				for sc.Scan() {
@@ -669,15 +904,35 @@ func c11Fatal(out *evid.Out) {
 					if strings.Contains(sc.Text(), `"level":"fatal"`) {
 						fatal = true
 					}
+					var i int
+					if k := strings.Index(sc.Text(), `"i":`); k >= 0 {
+						if _, err := fmt.Sscanf(sc.Text()[k:], `"i":%d`, &i); err == nil {
+							seen[i] = true
+						}
+					}
 				}
 				fh.Close()
 			}
 			os.Remove(path)
-			if code != 1 || lines != n+1 || !fatal {
-				out.Violate("fatal-path", fmt.Sprintf("Fatal through a diode writer (%s, %d prior events, ring 32): exit status %d, %d events on disk (expected %d incl. the fatal one), fatal event present=%v", wrap, n, code, lines, n+1, fatal),
-					map[string]interface{}{"check": "c11", "wrap": wrap, "n": n})
+			missing := 0
+			for i := 0; i < n; i++ {
+				if !seen[i] {
+					missing++
+				}
+			}
+			// with other goroutines logging, their events may or may not make it (they race with Close); the n
+			// events logged before Fatal and the fatal event itself must
+			if code != 1 || missing != 0 || !fatal || (!conc && lines != n+1) {
+				out.Violate("fatal-path", fmt.Sprintf("Fatal through a diode writer (%s, %d prior events, ring 32, poll %dus, %s, concurrent loggers=%v): exit status %d, %d events on disk, %d of the %d prior events missing, fatal event present=%v", wrap, n, poll, fin, conc, code, lines, missing, n, fatal),
+					map[string]interface{}{"check": "c11", "wrap": wrap, "n": n, "poll_us": poll, "finalizer": fin, "concurrent": conc})
 			}
 			out.Count("fatal_path_cases", 1)
+			if poll > 0 {
+				out.Count("fatal_path_cases_poller_mode", 1)
+			}
+			if conc {
+				out.Count("fatal_path_cases_with_concurrent_loggers", 1)
+			}
 		}
 	}
 }
@@ -695,15 +950,24 @@ func (w fileW) Write(p []byte) (int, error) {
 	return w.f.Write(p)
 }
 
+// Close makes the destination an io.Closer: diode.Writer.Close closes it after the drain; a write after that fails.
+func (w fileW) Close() error { return w.f.Close() }
+
 func c11FatalChild(args []string) int {
 	wrap := args[0]
-	var n int
+	var n, pollUs int
 	fmt.Sscan(args[1], &n)
+	fin, conc := "Msg", false
+	if len(args) >= 6 {
+		fmt.Sscan(args[3], &pollUs)
+		fin = args[4]
+		conc = args[5] == "true"
+	}
 	fh, err := os.Create(args[2])
 	if err != nil {
 		return 3
 	}
-	dw := diode.NewWriter(fileW{fh}, 32, 0, nil)
+	dw := diode.NewWriter(fileW{fh}, 32, time.Duration(pollUs)*time.Microsecond, nil)
 	var l zerolog.Logger
 	switch wrap {
 	case "filtered":
@@ -732,7 +996,29 @@ func c11FatalChild(args []string) int {
 	for i := 0; i < n; i++ {
 		l.Info().Int("i", i).Msg("before fatal")
 	}
-	l.Fatal().Msg("bye")
+	if conc && n+3 <= 31 {
+		// other goroutines keep logging through the same logger while Fatal closes the writer (ring 32 and a
+		// slow destination: one event each, so that the n prior events are never lapped)
+		for g := 0; g < 2; g++ {
+			go func(g int) {
+				defer func() { recover() }()
+				l.Warn().Int("other", g).Msg("concurrent")
+			}(g)
+		}
+	}
+	switch fin {
+	case "Msgf":
+		l.Fatal().Msgf("bye %d", 1)
+	case "Send":
+		l.Fatal().Send()
+	case "MsgFunc":
+		l.Fatal().MsgFunc(func() string { return "bye" })
+	case "pkg-log":
+		zlog.Logger = l
+		zlog.Fatal().Msg("bye")
+	default:
+		l.Fatal().Msg("bye")
+	}
 	return 0
 }
 
